@@ -128,7 +128,7 @@ func R7(p *core.Prog) *core.Result {
 		readers := map[string]map[*ssa.Function]bool{}
 		var fns []*ssa.Function
 		for _, f := range p.ModFuncs() {
-			if f.Signature.Recv() == nil || namedOf(f.Signature.Recv().Type()) != fm.recvNamed || f.Blocks == nil || f.Name() == "init" {
+			if f.Signature.Recv() == nil || namedOf(f.Signature.Recv().Type()) != fm.recvNamed || f.Blocks == nil || core.FuncName(f) == "init" {
 				continue
 			}
 			fns = append(fns, f)
@@ -247,9 +247,9 @@ func R7(p *core.Prog) *core.Result {
 						continue
 					}
 					visit(sc)
-					if (sc.Name() == "push" || sc.Name() == "pop") && len(c.Common().Args) > 0 {
+					if (core.FuncName(sc) == "push" || core.FuncName(sc) == "pop") && len(c.Common().Args) > 0 {
 						if fld := fieldOfReceiver(f, c.Common().Args[0]); fld != "" {
-							if sc.Name() == "push" {
+							if core.FuncName(sc) == "push" {
 								pushes[fld] = true
 							} else {
 								pops[fld] = true
@@ -266,10 +266,10 @@ func R7(p *core.Prog) *core.Result {
 		if pk == "json" {
 			// json keeps its stack in a plain slice handled by pushState/popState
 			for f := range seen {
-				if f.Name() == "pushState" {
+				if core.FuncName(f) == "pushState" {
 					pushes["states"] = true
 				}
-				if f.Name() == "popState" {
+				if core.FuncName(f) == "popState" {
 					pops["states"] = true
 				}
 			}
